@@ -101,6 +101,7 @@ class World:
         self.ncell = case['ncell']
         self.stats = {}
         self.commits_ok = []        # (client, tokens written, invoke, ret)
+        self.serial_obs = []
         self.setup()
 
     def flag(self, oracle, detail):
@@ -319,6 +320,13 @@ class ClientTask:
                 w.commits_ok.append((self.idx, self.txn_no, written, inv,
                                      ret))
                 self.outcomes.append('commit')
+                # what the committed objects carry as their serial now
+                # (unless they were invalidated again at the boundary)
+                for oid, t, _b in written:
+                    o = cl.conn._cache.get(oid)
+                    if o is not None and o._p_changed is False:
+                        w.serial_obs.append((self.idx, self.txn_no, oid, t,
+                                             o._p_serial))
             except ConflictError as e:
                 self.outcomes.append('readconflict'
                                      if isinstance(e, ReadConflictError)
@@ -456,6 +464,24 @@ def poker_task(spec, results):
             for _ in range(spec['gap']):
                 s.yield_point('idle', None)
     return run
+
+
+def check_serials(w, log):
+    """After a commit the connection's copy of a written object carries the
+    id of the transaction that stored it."""
+    for idx, txn_no, oid, token, serial in w.serial_obs:
+        # (an undo can bring the same state back under a later id: the
+        # first revision with the token is the client's own)
+        hit = None
+        for tid, r in log.revisions(oid):
+            if r.data is not None and dbh.token_of(r.data) == token:
+                hit = tid
+                break
+        if hit is not None and serial != hit:
+            w.flag('serial-after-commit', 'client %d transaction %d wrote '
+                   'token %r of %r in %r; afterwards its copy carries serial '
+                   '%r' % (idx, txn_no, token, oid, hit, serial))
+            break
 
 
 def check_pokers(w, log, results, packed=False):
